@@ -255,6 +255,18 @@ func getSignedAttributes(req *signature.SignRequest, algorithm string) (map[stri
 		return nil, fmt.Errorf("unexpected error occurred while creating protected headers, Error: %s", err.Error())
 	}
 
+	// mergeMaps only detects the specification headers this request sets; the
+	// others (an expiry when the request has none, the time header of the
+	// other signing scheme) must not be smuggled in as extended attributes
+	for _, headerKey := range headerKeys {
+		if _, ok := m[headerKey]; ok {
+			continue
+		}
+		if _, ok := extAttrs[headerKey]; ok {
+			return nil, &signature.InvalidSignRequestError{Msg: fmt.Sprintf("%q is a header defined by the envelope specification and cannot be used as an extended attribute key", headerKey)}
+		}
+	}
+
 	return mergeMaps(m, extAttrs)
 }
 
